@@ -86,6 +86,19 @@ def check_l1(case):
         require(bool(np.all(ch <= DZ.min(axis=1) + tol)), "l1:predict-not-nearest", name, facts)
         T = np.asarray(m.transform(Z))
         require(T.shape == DZ.shape and bool(np.all(np.abs(T - DZ) <= (1e-5 * scale if f32 else 0.0))), "l1:transform", name, facts)
+    # the same model trained through fit_transform / fit_predict (what a Pipeline calls for an inner step): Manhattan distances to its own
+    # centres, nearest-centre labels
+    m2 = _mod.KMeansL1L2(norm="L1", **np_scalars(kw, case.get("np_params", False)))
+    np.random.seed(case["seed"])
+    T2 = np.asarray(m2.fit_transform(X, sample_weight=w))
+    D2 = _manh(X, np.asarray(m2.cluster_centers_))
+    require(T2.shape == D2.shape and bool(np.all(np.abs(T2 - D2) <= (1e-5 * (1.0 + D2.max()) if f32 else 0.0))), "l1:fit_transform",
+            "fit_transform(X) is not the matrix of Manhattan distances to the fitted centres: first row %r, Manhattan %r" % (T2[0].tolist(), D2[0].tolist()), facts)
+    require(np.array_equal(np.asarray(m2.cluster_centers_), C), "l1:fit_transform:other-model", "fit_transform under the same seed fitted other centres than fit", facts)
+    m3 = _mod.KMeansL1L2(norm="L1", **np_scalars(kw, case.get("np_params", False)))
+    np.random.seed(case["seed"])
+    P3 = np.asarray(m3.fit_predict(X, sample_weight=w))
+    require(np.array_equal(P3, L), "l1:fit_predict", "fit_predict(X) differs from labels_ of fit(X) under the same seed", facts)
     tie = bool(np.any(np.ptp(np.sort(D, axis=1)[:, :2], axis=1) == 0)) if k >= 2 else False
     dup = facts["n_distinct"] < n
     labels = ["L1", case["dtype"], "offset=%g" % float(case.get("offset", 0.0)), "init=" + facts["init"], "dup" if dup else "nodup", "tie" if tie else "notie",
@@ -103,9 +116,17 @@ def check_l2(case):
         w = np.array(case["l2_weights"][:len(X)], dtype=np.float64)
     facts = dict(k=k, n=len(X), init=case["init"] if isinstance(case["init"], str) else "array", dtype=case["dtype"])
     np.random.seed(case["seed"])
-    m = _mod.KMeansL1L2(norm="L2", **np_scalars(kw, case.get("np_params", False))).fit(X, sample_weight=w)
+    # the model may be trained through fit, fit_transform or fit_predict (what a Pipeline calls for a step that is not the last one)
+    via = case.get("train_via", "fit")
+    facts["train_via"] = via
+    m = _mod.KMeansL1L2(norm="L2", **np_scalars(kw, case.get("np_params", False)))
+    ref = KMeans(**kw)
     np.random.seed(case["seed"])
-    ref = KMeans(**kw).fit(X, sample_weight=w)
+    out_m = getattr(m, via)(X, sample_weight=w)
+    np.random.seed(case["seed"])
+    out_r = getattr(ref, via)(X, sample_weight=w)
+    if via != "fit":
+        require(np.array_equal(np.asarray(out_m), np.asarray(out_r)), "l2:" + via, "%s(X, sample_weight) differs from KMeans'" % via, facts)
     for a in ("cluster_centers_", "labels_", "inertia_", "n_iter_"):
         require(np.array_equal(np.asarray(getattr(m, a)), np.asarray(getattr(ref, a))), "l2:" + a,
                 "%r vs KMeans %r" % (np.asarray(getattr(m, a)).tolist(), np.asarray(getattr(ref, a)).tolist()), facts)
@@ -117,7 +138,7 @@ def check_l2(case):
     sref = ref.score(Q if len(Q) else X)
     require(m.score(Q if len(Q) else X) == sref, "l2:score", "", facts)
     return Outcome(["L2", case["dtype"], "init=" + facts["init"], "k=1" if k == 1 else "k>=2", "algorithm=" + kw["algorithm"],
-                    "weights" if case.get("l2_weights") is not None else "no-weights"], k >= 2)
+                    "weights" if case.get("l2_weights") is not None else "no-weights", "via:" + via], k >= 2)
 
 
 _cell = st.integers(-64, 64).map(lambda v: v / 8.0)
@@ -151,6 +172,7 @@ def _cases(draw, tier="quick"):
                 random_state=draw(st.one_of(st.none(), st.integers(0, 1000))), seed=draw(st.integers(0, 2**31 - 2)),
                 tol=draw(st.sampled_from([1e-4, 0.0, 1e-2])), dtype=draw(st.sampled_from(["float64", "float64", "float32"])),
                 ones_weight=draw(st.booleans()), Q=Q, n_init_auto=draw(st.integers(0, 4)) == 0, offset=draw(st.sampled_from([0.0, 0.0, 0.0, 1024.0, 1048576.0])), algorithm=draw(st.sampled_from(["lloyd", "lloyd", "elkan"])),
+                train_via=draw(st.sampled_from(["fit", "fit", "fit_transform", "fit_predict"])),
                 l2_weights=draw(st.one_of(st.none(), st.lists(st.integers(1, 16).map(lambda v: v / 4.0), min_size=len(X), max_size=len(X)))))
 
 
